@@ -1,6 +1,8 @@
 package openapi
 
 import (
+	"fmt"
+
 	"github.com/jsightapi/jsight-api-core/catalog"
 )
 
@@ -14,7 +16,16 @@ func paramsFromJSchema(es *catalog.ExchangeJSightSchema, in parameterLocation) (
 	if err != nil {
 		return nil, err.wrapWith("unable to convert schema to parameters")
 	} else {
-		for _, pi := range paramInfos { // TODO:in future may have multiple infos with same name
+		seen := make(map[string]struct{}, len(paramInfos))
+		for _, pi := range paramInfos {
+			// OpenAPI doesn't allow two parameters with the same name and
+			// location. JSight does: a property inherited through allOf whose key
+			// is a user type shortcut ("@key") and an own property "@key".
+			if _, ok := seen[pi.name()]; ok {
+				return nil, newErr(fmt.Sprintf("the parameter %q is described twice", pi.name()))
+			}
+			seen[pi.name()] = struct{}{}
+
 			po := newParameterObject(
 				in,
 				pi.name(),
